@@ -130,7 +130,7 @@ def handle_rules(ctx, rid, cls, what_lock):
     """structure of lock_handle / shared_lock_handle (DESIGN C01.handle)"""
     ctx.rule(rid, "%s acquires or adopts the lock in its constructors, changes lock state only in "
              "unlock(), is move-only, members private" % cls.split("::")[-1], floor=12)
-    fb = ctx.fb
+    fb, eng = ctx.fb, ctx.eng
     recs = list(fb.records(tmpl=cls))
     if not recs:
         ctx.broken("no instantiation of %s" % cls)
@@ -185,6 +185,12 @@ def handle_rules(ctx, rid, cls, what_lock):
                 ok = (li is not None and li["k"] in CTORS and len(li["args"]) == 1 and
                       path(f, f.s(li["args"][0])) == "p:" + pnames[1] and
                       is_mutex_type(li["callee"]["params"][0]))
+                if not ok and li is not None and li["k"] in CALLS and (li.get("callee") or {}).get("inrepo"):
+                    # through a lock factory of the library: what counts is that the factory's lock owns the given mutex,
+                    # acquired by a blocking acquisition
+                    s_ = eng.handle_summary_of_call(f, li)
+                    ok = bool(s_) and len(s_) == 1 and s_[0]["st"] == HELD and s_[0].get("blocking") and \
+                        s_[0].get("mutex") == "p:" + pnames[1]
                 ctx.ob(rid, ok, site, "constructor (pointer, M&) acquires the given mutex with the blocking "
                        "RAII constructor", "" if ok else "m_handle_lock is not initialised as lock_type(mutex)",
                        fn=f.label, inst=f.qname)
